@@ -4,6 +4,7 @@
    the tool drivers, and compare_data / compare_nodes of tools/cgnsdiff.c).
    Only statements closed by [exact]; Print Assumptions under each. *)
 From Coq Require Import ZArith List Bool Permutation.
+From Flocq Require Import IEEE754.Binary IEEE754.Bits.
 From CgnsV Require Import ListX Copy CopyProofs.
 Import ListNotations.
 Local Open Scope Z_scope.
@@ -153,6 +154,16 @@ Theorem C09_diff_deep_path_overflow_refuted :
     has_overflow (cgnsdiff true false w w 64 f f) = true.
 Proof. exact diff_deep_path_overflow. Qed.
 Print Assumptions C09_diff_deep_path_overflow_refuted.
+
+(* outside the default options: with -t<tol> the comparison is fabs(a-b) > tol, false for a NaN -- 2.0 against NaN is
+   silent (with the default tolerance 0 bytes are compared and the same pair IS reported).  Flocq's binary64. *)
+Theorem C09_diff_tol_nan_refuted :
+  exists d1 d2 tol, d1 <> d2 /\ Binary.is_nan 53 1024 (b64_of_bits d2) = true /\
+                    compare_doubles tol [d1] [d2] = false /\
+                    compare_data true [47;97] [47;97] (Node [97] [] [82;56] [1] [0;0;0;0;0;0;0;64] [])
+                                                      (Node [97] [] [82;56] [1] [0;0;0;0;0;0;248;127] []) = [DData [47;97] [47;97]].
+Proof. exact diff_tol_nan_blind. Qed.
+Print Assumptions C09_diff_tol_nan_refuted.
 
 (* ---- non-vacuity ---------------------------------------------------------------------------------------------------------------------- *)
 Example C09_hypotheses_satisfiable_copy :
